@@ -242,6 +242,25 @@ def defaults(ctx, sg, lim):
     rep.check(same(I.getattr(g, 'step_nom'), 3), 'R-DEFAULTS', 'step_generators.MinStepGenerator.step_nom', sg.relpath,
               {'step_nom': repr(I.getattr(g, 'step_nom'))}, 'user supplied nominal step is used as is', 'step_nom=3',
               key='nominal-user')
+    # a user nominal step is used as is whatever the dtype of x (integer x must not truncate it)
+    for xval, name in ((2, 'int x'), (Arr((2,), [1, 3], kind='i'), 'int array x')):
+        g = Min(base_step=Poly.sym('b'), step_ratio=Poly.sym('r'), num_steps=2, step_nom=Fr(3, 2), check_num_steps=False)
+        steps = [s_ for s_ in g(xval, 'forward', 1, 2)]
+        first = steps[0].items()[0] if steps and isinstance(steps[0], Arr) else (steps[0] if steps else None)
+        rep.check(first is not None and same(first, Poly.sym('b') * Fr(3, 2) * Poly.sym('r')), 'R-DEFAULTS',
+                  'step_generators.MinStepGenerator.step_nom', sg.relpath, {'x': name, 'first_step': repr(first)},
+                  'base_step * step_nom * ratio for step_nom = 1.5', 'step_nom=1.5/%s' % name, key='nominal-user-int')
+    # the default ratio follows the n of the *current* call when one generator object is reused
+    for cls, name in ((Min, 'MinStepGenerator'), (Max, 'MaxStepGenerator')):
+        g = cls()
+        seq = []
+        for n in (1, 3, 1, 2):
+            sgf = I.getattr(g, 'step_generator_function')(x, 'central', n, 2)
+            seq.append((n, sgf.attrs['step_ratio']))
+        ok = all(same(r, 2 if n == 1 else Fr(8, 5)) for n, r in seq)
+        rep.check(ok, 'R-DEFAULTS', 'step_generators.%s.step_ratio' % name, sg.relpath,
+                  {'ratios_for_n_1_3_1_2': [repr(r) for n, r in seq]}, '2, 1.6, 2, 1.6 on one generator object',
+                  '%s reused' % name, key='default-ratio-reuse')
     # Max generator defaults
     g = Max()
     sgf = I.getattr(g, 'step_generator_function')(x, 'central', 1, 2)
